@@ -46,13 +46,15 @@ func (b behav) String() string {
 }
 
 type caseT struct {
-	NoPublisher bool
-	Middlewares []int // 0 identity, 1 append-output; registration order
-	HandlerLvl  []bool
-	Barrier     bool
-	Msgs        []behav
-	Noise       []uint8
-	Procs       int
+	NoPublisher  bool
+	NilPublisher bool  // AddHandler(..., publisher = nil, ...): outputs cannot be published either
+	CancelMid    int   // cancel the Run context after this many messages were emitted (-1 = never); the subscriber keeps delivering
+	Middlewares  []int // 0 identity, 1 append-output; registration order
+	HandlerLvl   []bool
+	Barrier      bool
+	Msgs         []behav
+	Noise        []uint8
+	Procs        int
 }
 
 func genCase(t *rapid.T) caseT {
@@ -60,6 +62,10 @@ func genCase(t *rapid.T) caseT {
 		NoPublisher: rapid.IntRange(0, 3).Draw(t, "noPublisher") == 0,
 		Barrier:     rapid.Bool().Draw(t, "holdAllInHandlers"),
 		Procs:       rapid.SampledFrom([]int{1, 2, 4, 16}).Draw(t, "gomaxprocs"),
+	}
+	c.CancelMid = -1
+	if !c.NoPublisher && rapid.IntRange(0, 5).Draw(t, "nilPublisher") == 0 {
+		c.NilPublisher = true
 	}
 	nm := rapid.IntRange(0, 2).Draw(t, "nMiddlewares")
 	for i := 0; i < nm; i++ {
@@ -91,12 +97,16 @@ func genCase(t *rapid.T) caseT {
 		c.Msgs = append(c.Msgs, b)
 	}
 	c.Noise = rapid.SliceOfN(rapid.Uint8Range(0, 6), 0, 12).Draw(t, "noise")
+	if rapid.IntRange(0, 4).Draw(t, "cancelRunContextDuringTraffic") == 0 {
+		c.CancelMid = rapid.IntRange(0, n-1).Draw(t, "cancelAfterMessages")
+		c.Barrier = false
+	}
 	return c
 }
 
 func (c caseT) canon() string {
 	var b strings.Builder
-	fmt.Fprintf(&b, "np=%v mw=%v hl=%v bar=%v|", c.NoPublisher, c.Middlewares, c.HandlerLvl, c.Barrier)
+	fmt.Fprintf(&b, "np=%v nil=%v cancel=%d mw=%v hl=%v bar=%v|", c.NoPublisher, c.NilPublisher, c.CancelMid, c.Middlewares, c.HandlerLvl, c.Barrier)
 	for _, m := range c.Msgs {
 		fmt.Fprintf(&b, "%d%v%d%d%d%d%d;", m.Outputs, m.Shared, m.Err, m.Panic, m.Self, m.Pub, m.Ctx)
 	}
@@ -234,6 +244,8 @@ func runCase(t *rapid.T, c caseT) {
 			_, err := core(msg)
 			return err
 		})
+	} else if c.NilPublisher {
+		h = router.AddHandler("h", "in", sub, "out", nil, core)
 	} else {
 		h = router.AddHandler("h", "in", sub, "out", pub, core)
 	}
@@ -298,8 +310,15 @@ func runCase(t *rapid.T, c caseT) {
 		return nil
 	}
 
+	runCtx, cancelRun := context.WithCancel(context.Background())
+	defer cancelRun()
+	if c.CancelMid >= 0 {
+		// messages that are already on their way keep arriving after the cancellation
+		sub.IgnoreCtx = true
+		defer sub.Close()
+	}
 	runErr := make(chan error, 1)
-	go func() { runErr <- router.Run(context.Background()) }()
+	go func() { runErr <- router.Run(runCtx) }()
 	select {
 	case <-router.Running():
 	case <-time.After(lib.Live):
@@ -313,6 +332,9 @@ func runCase(t *rapid.T, c caseT) {
 	// emit without waiting for settlements
 	var ds []*lib.Delivery
 	for i := range c.Msgs {
+		if i == c.CancelMid {
+			cancelRun()
+		}
 		tag := fmt.Sprintf("m%d", i)
 		m := message.NewMessage("uuid-"+tag, []byte("payload-"+tag))
 		m.Metadata.Set("tag", tag)
@@ -354,8 +376,27 @@ func runCase(t *rapid.T, c caseT) {
 		close(release)
 	}
 
-	// every message must be settled
-	for _, d := range ds {
+	// every message the router took must be settled; after the Run context was cancelled a message may instead be
+	// dropped before it reaches the handler (never handled, never acked)
+	dropped := map[string]bool{}
+	for i, d := range ds {
+		_ = i
+		if c.CancelMid >= 0 {
+			// also a message emitted just before the cancellation may still sit in the subscriber decorator
+			invoked := func() bool {
+				mu.Lock()
+				defer mu.Unlock()
+				r := recs[d.Tag]
+				return r != nil && r.handlerCalls > 0
+			}
+			if !lib.WaitUntil(30*time.Millisecond, invoked) {
+				if a, _ := d.State(); a {
+					t.Fatalf("violation: message %s was acked although its handler never ran (Run context cancelled)", d.Tag)
+				}
+				dropped[d.Tag] = true
+				continue
+			}
+		}
 		if _, ok := d.Wait(2 * lib.Live); !ok {
 			t.Fatalf("violation: message %s (%s) was never settled", d.Tag, behavOf(d.Tag))
 		}
@@ -363,6 +404,9 @@ func runCase(t *rapid.T, c caseT) {
 	// let late effects (a second publish, a late handler call) surface
 	time.Sleep(200 * time.Microsecond)
 
+	if c.CancelMid >= 0 {
+		sub.Close() // this subscriber ignores its context: end the subscription so that the handler can stop
+	}
 	closed := make(chan error, 1)
 	go func() { closed <- router.Close() }()
 	select {
@@ -392,6 +436,12 @@ func runCase(t *rapid.T, c caseT) {
 	for i, d := range ds {
 		tag := d.Tag
 		b := c.Msgs[i]
+		if dropped[tag] {
+			if r := recs[tag]; r != nil && r.handlerCalls > 0 {
+				// handled late after all: too late to judge here
+			}
+			continue
+		}
 		r := recs[tag]
 		if r == nil || r.handlerCalls != 1 {
 			n := 0
@@ -408,7 +458,7 @@ func runCase(t *rapid.T, c caseT) {
 				nOut++
 			}
 		}
-		expectPublish := handlerOK && nOut > 0 && !c.NoPublisher
+		expectPublish := handlerOK && nOut > 0 && !c.NoPublisher && !c.NilPublisher
 		var wantAck bool
 		switch {
 		case b.Self == 1:
@@ -416,7 +466,7 @@ func runCase(t *rapid.T, c caseT) {
 		case b.Self == 2:
 			wantAck = false
 		default:
-			wantAck = handlerOK && (nOut == 0 || (!c.NoPublisher && b.Pub == 0))
+			wantAck = handlerOK && (nOut == 0 || (!c.NoPublisher && !c.NilPublisher && b.Pub == 0))
 		}
 		if !wantAck || b.Self != 0 || !handlerOK || (expectPublish && b.Pub != 0) {
 			nonSuccess = true
